@@ -35,6 +35,8 @@ CHECK = {
            'Further show shapes: Tables, Trees, Arrays and Lists whose key / value / element type is a plain user struct (Show instance only) of 1, 3, 5, 8, 12 and 20 bytes in each role (48 shapes); '
            'views over 10 base containers (Array, List, Tuple, Table and Tree with Int keys 0..4 and different values, with String keys, with Int keys 10,20,30, empty Array): slice(x), slice(x,2), slice(x,1,3), '
            'step 2, reverse, step -2 (expected: own prefix + join of show_to over the foreach items + own suffix) and filter, map, zip, enumerate (shown without items: only %$ == show_to on both sinks and all starts). '
+           '27 Range shapes judged like the slices: range(n) n in {0,1,3}, range(a,b) incl. empty, steps 2, 3, -1, -2, item values crossing +-2^31 and +-2^32 and next to the INT64 limits, '
+           'heap Ranges from new(Range, ...), and slice/reverse/stepped views over a Range of values beyond int32. ' 
            'Repeated arguments: every argument sequence of length 2..4 over three distinct objects x, y, z (117 sequences, incl. (x,x), (x,x,y), (x,y,x,z), (x,y,y)) '
            'in five styles (%$ of Int, %li, %s, %$ of String, mixed Int/String/Float with %li %s %5.2f %$), both sinks, starts {0, current length}; the i-th specification '
            'must format the i-th argument (snprintf on the values; %$ pieces are show_to of a stand-alone object of the same value). '
@@ -60,12 +62,12 @@ CHECK = {
     'quick': ('flags: all defined subsets; width {none,5}; precision {none,.3}; all length modifiers; Int values {0,-1,42,128,-129,32768,INT_MAX,INT_MIN} '
               '(+ {2^32, INT64_MAX, INT64_MIN} for l ll j z t); 11 Float values incl. +-0, +inf, denormal, 1e300; 6 Strings incl. empty and 40 chars; '
               '6 chars; 6 objects for %p/%$ (heap String, Type, NULL, Ref, Box, Range); 8 contexts x 3 starts x 2 sinks (File over open_memstream); '
-              '206 container shapes (element value grids incl. values beyond int32, nested one level, user structs of 1..20 bytes as keys/values/elements) and 100 views; too-few-arguments for every specification x context x smaller argument count x sink; '
+              '206 container shapes (element value grids incl. values beyond int32, nested one level, user structs of 1..20 bytes as keys/values/elements), 100 views and 27 Range shapes; too-few-arguments for every specification x context x smaller argument count x sink; '
               'ASan+UBSan and a tmpfile-backed File over the same specifications with the level-0 values and starts {0,len}; '
               'length ladder N = 1..300 and 510..514, 1022..1026, 2046..2050, 4094..4098 (gcc and ASan+UBSan builds); 117 repeated-argument sequences x 5 styles; 27 x 7 sink-recycling sequences (gcc build reuses addresses, ASan build checks memory safety only); 220 re-entrant formats; 43 failure-history cases (6 kinds x 7 counts + none)'),
     'thorough': ('flags: all defined subsets; width {none,1,5,12}; precision {none,.0,.3,.10}; all length modifiers; 14 Int values within int '
                  '(+5 beyond int for l ll j z t); 15 Float values incl. +-0, +-inf, nan, denormal, 1e300, 0.1, 123456.789, rounding ties; 6 Strings; '
-                 '8 chars; 6 objects for %p/%$; 8 contexts x 3 starts x 2 sinks; 206 container shapes and 100 views; too-few-arguments as in quick over the full '
+                 '8 chars; 6 objects for %p/%$; 8 contexts x 3 starts x 2 sinks; 206 container shapes, 100 views and 27 Range shapes; too-few-arguments as in quick over the full '
                  'specification set; the whole grid is run three times: gcc build with File over open_memstream, clang ASan+UBSan build, '
                  'gcc build with File over tmpfile(); length ladder N = 1..1100 and the neighbours of 2048, 4096, 8192 (gcc and ASan+UBSan builds); 117 repeated-argument sequences x 5 styles; 27 x 7 sink-recycling sequences (gcc build reuses addresses, ASan build checks memory safety only); 220 re-entrant formats; 43 failure-history cases (6 kinds x 7 counts + none)'),
   },
